@@ -51,10 +51,12 @@ static void on_alarm(int)
 
 // ------------------------------------------------------------------------------------------------ guard
 struct UserExc {};
+struct GuardLeft { std::string obs; };   // nested mode: the inner scope was left by an exception (observation attached)
 
 template<class Mk>
-static std::string run_guard(Mk&& mk, const std::string& script, bool count)
+static std::string run_guard(Mk&& mk, const std::string& script, bool count, bool rethrow = false)
 {
+  bool exceptional = true;
   long c0 = g_allreduce;
   size_t pc = 0;
   std::string ex;
@@ -68,7 +70,7 @@ static std::string run_guard(Mk&& mk, const std::string& script, bool count)
         case 't': throw UserExc();
         default: break;
       }
-    ex = "N";
+    ex = "N"; exceptional = false;
   } catch (Dune::MPIGuardError& e) {
     std::string w = e.what();
     size_t p = w.find("due to ");
@@ -80,7 +82,9 @@ static std::string run_guard(Mk&& mk, const std::string& script, bool count)
   } catch (Dune::Exception& e) {
     ex = "?E(" + std::string(typeid(e).name()) + ")";
   }
-  return ex + ":" + (count ? std::to_string(g_allreduce - c0) : std::string("-"));
+  std::string obs = ex + ":" + (count ? std::to_string(g_allreduce - c0) : std::string("-"));
+  if (rethrow && exceptional) throw GuardLeft{obs};   // the exception continues to unwind through the enclosing scope
+  return obs;
 }
 
 // ------------------------------------------------------------------------------------------------ futures
@@ -380,6 +384,33 @@ int main(int argc, char** argv)
   std::ifstream in(argv[1]);
   FILE* out = fopen((std::string(argv[2]) + "." + std::to_string(g_rank)).c_str(), "w");
   std::map<std::string, MPI_Comm> splits;
+  auto split_comm = [&](const std::string& colors) -> MPI_Comm {
+    auto it = splits.find(colors);
+    if (it == splits.end()) {
+      MPI_Comm nc; MPI_Comm_split(MPI_COMM_WORLD, colors[g_rank] - '0', g_rank, &nc);
+      it = splits.emplace(colors, nc).first;
+    }
+    return it->second;
+  };
+  auto run_kind = [&](const std::string& kind, bool act, const std::string& colors, const std::string& script) -> std::string {
+    MPI_Comm sc = (kind == "S" || kind == "T") ? split_comm(colors) : MPI_COMM_NULL;
+    if (kind == "H") return run_guard([&]() { return Dune::MPIGuard(act); }, script, true);
+    if (kind == "M") return run_guard([&]() { return Dune::MPIGuard(helper, act); }, script, true);
+    if (kind == "C") return run_guard([&]() { return Dune::MPIGuard(Dune::Communication<MPI_Comm>(g_wdup), act); }, script, true);
+    if (kind == "W") return run_guard([&]() { return Dune::MPIGuard(g_wdup, act); }, script, true);
+    if (kind == "S") return run_guard([&]() { return Dune::MPIGuard(sc, act); }, script, true);
+    if (kind == "T") return run_guard([&]() { return Dune::MPIGuard(Dune::Communication<MPI_Comm>(sc), act); }, script, true);
+    // default argument `active = true` of every constructor (lower case kinds, act must be 1)
+    if (kind == "h") return run_guard([&]() { return Dune::MPIGuard(); }, script, true);
+    if (kind == "m") return run_guard([&]() { return Dune::MPIGuard(helper); }, script, true);
+    if (kind == "c") return run_guard([&]() { return Dune::MPIGuard(Dune::Communication<MPI_Comm>(g_wdup)); }, script, true);
+    if (kind == "w") return run_guard([&]() { return Dune::MPIGuard(g_wdup); }, script, true);
+    if (kind == "n") return run_guard([&]() { return Dune::MPIGuard(Dune::Communication<Dune::No_Comm>()); }, script, false);
+    // Communication<MPI_Comm>(Communication<No_Comm>) = MPI_COMM_SELF
+    if (kind == "X") return run_guard([&]() { return Dune::MPIGuard(Dune::Communication<MPI_Comm>(Dune::Communication<Dune::No_Comm>()), act); }, script, true);
+    if (kind == "N") return run_guard([&]() { return Dune::MPIGuard(Dune::Communication<Dune::No_Comm>(), act); }, script, false);
+    return "BAD-KIND";
+  };
   std::string line;
   long caseno = 0;
   while (std::getline(in, line)) {
@@ -391,34 +422,42 @@ int main(int argc, char** argv)
     alarm(alarm_s);
     if (!t.empty() && atoi(t.size() > 1 ? t[1].c_str() : "0") != g_size) res = "SKIP(P)";
     else if (t.size() >= 8 && t[0] == "G") {
-      const std::string kind = t[2]; bool act = t[3] == "1"; const std::string colors = t[4];
       std::vector<std::string> scripts = split(t[7], ',');
       std::string script = (size_t)g_rank < scripts.size() ? scripts[g_rank] : "-";
       if (script == "-") script = "";
-      MPI_Comm sc = MPI_COMM_NULL;
-      if (kind == "S" || kind == "T") {
-        auto it = splits.find(colors);
-        if (it == splits.end()) {
-          MPI_Comm nc; MPI_Comm_split(MPI_COMM_WORLD, colors[g_rank] - '0', g_rank, &nc);
-          it = splits.emplace(colors, nc).first;
-        }
-        sc = it->second;
+      res = run_kind(t[2], t[3] == "1", t[4], script);
+    }
+    else if (t.size() >= 7 && t[0] == "Q") {
+      // several scopes one after the other (a new guard each), NO harness synchronisation in between
+      std::vector<std::string> scripts = split(t[6], ',');
+      std::vector<std::string> mine = split((size_t)g_rank < scripts.size() ? scripts[g_rank] : "", ';');
+      res.clear();
+      for (size_t j = 0; j < mine.size(); ++j) {
+        if (j) res += ";";
+        res += run_kind(t[2], j < t[3].size() && t[3][j] == '1', t[4], mine[j] == "-" ? std::string() : mine[j]);
       }
-      if (kind == "H") res = run_guard([&]() { return Dune::MPIGuard(act); }, script, true);
-      else if (kind == "M") res = run_guard([&]() { return Dune::MPIGuard(helper, act); }, script, true);
-      else if (kind == "C") res = run_guard([&]() { return Dune::MPIGuard(Dune::Communication<MPI_Comm>(g_wdup), act); }, script, true);
-      else if (kind == "W") res = run_guard([&]() { return Dune::MPIGuard(g_wdup, act); }, script, true);
-      else if (kind == "S") res = run_guard([&]() { return Dune::MPIGuard(sc, act); }, script, true);
-      else if (kind == "T") res = run_guard([&]() { return Dune::MPIGuard(Dune::Communication<MPI_Comm>(sc), act); }, script, true);
-      // default argument `active = true` of every constructor (lower case kinds, act must be 1)
-      else if (kind == "h") res = run_guard([&]() { return Dune::MPIGuard(); }, script, true);
-      else if (kind == "m") res = run_guard([&]() { return Dune::MPIGuard(helper); }, script, true);
-      else if (kind == "c") res = run_guard([&]() { return Dune::MPIGuard(Dune::Communication<MPI_Comm>(g_wdup)); }, script, true);
-      else if (kind == "w") res = run_guard([&]() { return Dune::MPIGuard(g_wdup); }, script, true);
-      else if (kind == "n") res = run_guard([&]() { return Dune::MPIGuard(Dune::Communication<Dune::No_Comm>()); }, script, false);
-      // Communication<MPI_Comm>(Communication<No_Comm>) = MPI_COMM_SELF
-      else if (kind == "X") res = run_guard([&]() { return Dune::MPIGuard(Dune::Communication<MPI_Comm>(Dune::Communication<Dune::No_Comm>()), act); }, script, true);
-      else if (kind == "N") res = run_guard([&]() { return Dune::MPIGuard(Dune::Communication<Dune::No_Comm>(), act); }, script, false);
+    }
+    else if (t.size() >= 6 && t[0] == "N") {
+      // nested: outer guard on the world communicator, inner guard on the split communicator of this rank's colour
+      std::vector<std::string> scripts = split(t[5], ',');
+      std::string script = (size_t)g_rank < scripts.size() ? scripts[g_rank] : "";
+      MPI_Comm sc = split_comm(t[2]);
+      std::string inner = "?", outer = "?";
+      long c0 = g_allreduce, c1 = c0;
+      try {
+        Dune::MPIGuard og(g_wdup);
+        try {
+          std::string r = run_guard([&]() { return Dune::MPIGuard(sc); }, script, true, true);   // rethrows
+          inner = r; c1 = g_allreduce;
+        } catch (GuardLeft& gl) { inner = gl.obs; c1 = g_allreduce; throw UserExc(); }
+        og.finalize();
+        outer = "N";
+      } catch (Dune::MPIGuardError& e) {
+        std::string w = e.what(); size_t p = w.find("due to "), q = w.find("Terminating process ");
+        outer = "G0e" + std::to_string(p == std::string::npos ? -1 : atoi(w.c_str() + p + 7)) + "r" + std::to_string(q == std::string::npos ? -1 : atoi(w.c_str() + q + 20));
+      } catch (UserExc&) { outer = "P"; }
+      res = inner + "/" + outer + ":" + std::to_string(g_allreduce - c1);
+      (void)c0;
     }
     else if (t.size() >= 10 && t[0] == "F") {
       FCase c{atoi(t[1].c_str()), t[2], t[3], t[4], t[5], atoi(t[6].c_str()), atoi(t[7].c_str()), t[8], t[9]};
